@@ -180,6 +180,10 @@ fn main() {
                     continue;
                 }
                 let parent_idx = node.parent;
+                if parent_idx.is_none() {
+                    // The root has no branch to collapse
+                    continue;
+                }
                 let mut collapsed = false;
                 if let Some(len) = node.parent_edge {
                     if len < threshold {
